@@ -22,9 +22,18 @@ Fixpoint fquery_for (fuel : nat) (stk : list node) (c : caller) (fr : option fra
   match fuel with
   | O => OutOfFuel
   | S f =>
-    (* a dependency the executor did not read in its previous run is repaired pedantically *)
+    (* a dependency the executor did not read in its previous run, or whose transitive firewall
+       callees are no longer the ones accounted for, is repaired pedantically *)
     let c := match c with
-             | CQuery b true false prev => if nmem n prev then c else CQuery b true true prev
+             | CQuery b true false prev =>
+                 match alookup prev n with
+                 | None => CQuery b true true prev
+                 | Some seen =>
+                     match get_info s n with
+                     | Some ci => if nset_eqb (i_tfc ci) seen then c else CQuery b true true prev
+                     | None => c
+                     end
+                 end
              | _ => c
              end in
     (* register_callee, with the two assertions of register_callee.rs *)
@@ -62,7 +71,14 @@ Fixpoint fquery_for (fuel : nat) (stk : list node) (c : caller) (fr : option fra
         (* get_write_guard: double check, then process_query, then retry the fast path *)
         let* (marks, s2) :=
           match sp with
-          | SBackward => Ok ([], s1)        (* cannot arise: no projection, nothing is ever pending *)
+          | SBackward =>
+              (* a re-executed firewall whose value changed is marked "backward projection pending";
+                 the next root request for it runs the (here: empty) set of projection callers and
+                 clears the mark *)
+              match get_info s1 n with
+              | Some i => Ok ([], put_info s1 n (mkInfo (i_verified i) (i_value i) (i_tfc i) (i_fwd i) (i_obs i) None))
+              | None => Ok ([], s1)
+              end
           | _ =>
               match get_info s1 n with
               | Some i =>
@@ -91,7 +107,7 @@ with fexecute (fuel : nat) (stk : list node) (c : caller) (n : node) (recompute 
   | O => OutOfFuel
   | S f =>
     let pedantic := match c with CQuery _ _ pd _ => pd | _ => false end in
-    let prev := match get_info s n with Some i => all_callees (i_fwd i) | None => [] end in
+    let prev := match get_info s n with Some i => map (fun '(x, o) => (x, snd o)) (i_obs i) | None => [] end in
     let s0 := set_log s (n :: s_log s) in
     let me := CQuery n true pedantic prev in
     let* (out, fr1, marks, s1) :=
@@ -185,10 +201,17 @@ with frepair (fuel : nat) (stk : list node) (c : caller) (n : node) (s : state)
                  else if (match alookup (i_obs i) cal with None => true | Some _ => false end)
                  then Ok (DRecompute, fr, ms, s)     (* the previous run was cut at this (cyclic) dependency *)
                  else
+                   let pedantic_cal :=
+                     pedantic ||
+                     (negb (kind_eqb (nkind cal) KInput) && negb (kind_eqb (nkind cal) KFirewall) &&
+                      match get_info s cal, alookup (i_obs i) cal with
+                      | Some ci, Some (_, otfc) => negb (nset_eqb (i_tfc ci) otfc)
+                      | _, _ => false
+                      end) in
                    let* (fr1, m1, s1) :=
                      if kind_eqb (nkind cal) KInput then Ok (fr, [], s)
                      else
-                       let* (_, fr', m', s') := fquery_for f (n :: stk) (CQuery n false pedantic []) (Some fr) cal s in
+                       let* (_, fr', m', s') := fquery_for f (n :: stk) (CQuery n false pedantic_cal []) (Some fr) cal s in
                        Ok (match fr' with Some x => x | None => fr end, m', s') in
                    match get_info s1 cal, alookup (i_obs i) cal with
                    | Some ci, Some (ov, otfc) =>
